@@ -294,6 +294,26 @@ def r3_accumulation(ctx):
     ok = calls.count("composite.add(expr, component.proportion)") == 2 and "composite.add(other.expr, other.proportion)" in calls and \
         loops == ["self.components.items()", "other.components.items()"]
     ctx.form(ok, CO, "Composite._add", "all species of both operands are accumulated with their counts", detail={"calls": calls, "loops": loops})
+    # results of + and * share no component object with an operand: a component of an operand (the loop variable over
+    # <operand>.components) is never stored into the result - it would be changed in place by a later add() on the result
+    for q in ("Composite._add", "Composite._multiply"):
+        f_ = ctx.fn(CO, q)
+        shared = []
+        for lp in [l for l in ast.walk(f_) if isinstance(l, ast.For) and ".components" in norm(l.iter)]:
+            if isinstance(lp.target, ast.Tuple) and len(lp.target.elts) == 2 and isinstance(lp.target.elts[1], ast.Name):
+                comp = lp.target.elts[1].id
+            elif isinstance(lp.target, ast.Name) and norm(lp.iter).endswith(".values()"):
+                comp = lp.target.id
+            else:
+                continue
+            for a in ast.walk(lp):
+                if isinstance(a, ast.Assign) and isinstance(a.value, ast.Name) and a.value.id == comp and any(isinstance(t, ast.Subscript) and ".components" in norm(t.value) for t in a.targets):
+                    shared.append(norm(a))
+                if isinstance(a, ast.Call) and isinstance(a.func, ast.Attribute) and a.func.attr in ("update", "setdefault") and ".components" in norm(a.func.value) \
+                        and any(isinstance(x, ast.Name) and x.id == comp for arg in a.args for x in ast.walk(arg)):
+                    shared.append(norm(a))
+        ctx.check(not shared, CO, q, "the result shares no component object with an operand", detail=shared or None,
+                  expected="composite.add(expr, component.proportion) builds a new component")
     # constructor: every solved species is taken over; dict form goes through add()
     fn = ctx.fn(CO, "Composite.__init__")
     s = norm(fn)
